@@ -61,6 +61,45 @@ PROPS = {
         "technique": TECH,
         "design_ref": "DESIGN.md section 5, C20",
     },
+    "C01": {
+        "modules": ["Qvnt.Props.C01"],
+        "suites": [
+            suite("c01x", dict(count=0, max_n=3), dict(count=0, max_n=4)),
+            suite("c01", dict(count=800, max_n=6), dict(count=20000, max_n=9)),
+        ],
+        "mismatch_tags": None,
+        "spec_tags": [r"op", r"apply", r"applyeach", r"matrix"],
+        "trusted_base": TB_COMMON,
+        "assumptions": ASSUME_COMMON + ["angles enter the theorems as half-angle phases (c, s) with c*c + s*s = 1; the conversion angle -> (cos(a/2), sin(a/2)) is one libm call on each side", "the constants satisfy 2*h*h = 1 (FRAC_1_SQRT_2) and 2*half = 1 exactly in the theorems; in f64 they hold to rounding"],
+        "level_text": "Lean theorems (Props/C01.lean, via Lemmas/Kernels, Multi, Ctor, Refine, Matrix): every kernel of src/operator/atomic equals the action of its documented matrix (one-qubit gates for any mask bit, two-qubit gates for any two distinct bits), the multi-bit forms of x y z s t and h are that gate on each selected qubit for EVERY 64-bit mask (including the wrapped i-power arithmetic of y/s/t), u1/u2/u3 are the documented products, constructors needing one/two target bits refuse exactly the other masks, the reported matrix is the linear map performed (finite-sum statement) and the map preserves the norm; for every angle (unit-circle phase), every register size, every state. Tied to the code by an exhaustive small-scope run (all gate kinds x all masks x all basis states, n <= 3; n <= 4 thorough) plus random leaf programs up to 6 (9) qubits, compared against the model and against the documented-matrix reference semantics.",
+        "level_note": "Trusted: Lean kernel + standard axioms; hand-written model of the 18 reachable atomic kernels, SingleOp/MultiOp and the constructors of operator/mod.rs, multi/h.rs; the doc-comment matrices transcribed into Spec/Gates.lean. Rounding error is outside the theorems (commutative-ring scalars).",
+        "technique": TECH,
+        "design_ref": "DESIGN.md section 5, C01",
+    },
+    "C02": {
+        "modules": ["Qvnt.Props.C02"],
+        "suites": [suite("c02", dict(count=800, max_n=5), dict(count=20000, max_n=8))],
+        "mismatch_tags": [r"op", r"metactrl.*"],
+        "spec_tags": [r"c02\..*"],
+        "trusted_base": TB_COMMON,
+        "assumptions": ASSUME_COMMON,
+        "level_text": "Lean theorems (Props/C02.lean): for every operator built from the public gate set and every control mask, .c(m) is refused exactly when m overlaps the qubits acted on or controlled by, otherwise every queue element gets the mask OR-ed into its controls, the reported support is the union, nested controls compose, and the controlled product applies the original map where all bits of m are 1 and leaves every other amplitude untouched (C02_block, proved from the read-locality of every kernel: controlling commutes with composition). Tied to the code by the c02 suite: random operators (products, daggers, already controlled, qft) x control masks (0-3 bits, disjoint and overlapping, nested), with a metamorphic oracle on the implementation's own outputs (E.c(m) on psi against E on the projected state).",
+        "level_note": "Trusted: Lean kernel + standard axioms; model of dispatch.rs for_each control test (idx & ctrl == ctrl), SingleOp::c, MultiOp::c. The oracle compares the implementation with itself, so a kernel defect does not raise C02.",
+        "technique": TECH,
+        "design_ref": "DESIGN.md section 5, C02",
+    },
+    "C03": {
+        "modules": ["Qvnt.Props.C03"],
+        "suites": [suite("c03", dict(count=800, max_n=5), dict(count=20000, max_n=8))],
+        "mismatch_tags": [r"op", r"metadgr.*"],
+        "spec_tags": [r"c03\..*"],
+        "trusted_base": TB_COMMON,
+        "assumptions": ASSUME_COMMON + ["phases on the unit circle, constants exact (see C01)"],
+        "level_text": "Lean theorems (Props/C03.lean): for every operator built from the public gate set (parameterised, controlled, products, qft, u2/u3), with unit-circle phases: dgr(o) after o and o after dgr(o) are the identity on every state, o * dgr(o) applies as the identity, the dagger's matrix is the conjugate transpose of the operator's matrix, dgr(a*b) = dgr(b)*dgr(a), dgr is involutive and commutes with .c. Proved through the refinement build = denote carrying the operator and its dagger together, plus unitarity of every documented matrix. Tied to the code by the c03 suite (random operators up to depth 3, metamorphic oracles: E then E.dgr, E.dgr then E, E*E.dgr, conjugate-transposed matrices, reversed names).",
+        "level_note": "Trusted: Lean kernel + standard axioms; model of AtomicOp::dgr for all kinds (after the D1 repair), SingleOp::dgr, MultiOp::dgr.",
+        "technique": TECH,
+        "design_ref": "DESIGN.md section 5, C03",
+    },
     "C04": {
         "modules": ["Qvnt.Props.C04"],
         "suites": [
@@ -74,7 +113,7 @@ PROPS = {
         "trusted_base": TB_COMMON,
         "assumptions": ASSUME_COMMON,
         "level_text": "Lean 4 theorems (Props/C04.lean) prove for every queue, state and scalar type that the model's MultiOp::apply - buffer ping-pong and final swap included - is the left fold of its elements, that * / *= / append are list concatenation (hence any grouping is the same operator, identity neutral) and that QReg::apply of a product is one sweep per element. The model is tied to the code on every run by executing generated products (0..400 elements, all assembly forms) on the real crate and on the model, plus metamorphic oracles on the implementation's own outputs (product vs one-by-one vs regrouped vs identity-padded, commuting disjoint factors).",
-        "level_note": "Trusted: Lean kernel + propext/Quot.sound; the hand-written model of multi/mod.rs (validated by the correspondence run); rounding is outside the theorems. Commutation of disjoint operators is decided by the oracle until the locality theorem (Lemmas/SpecAlg) is assembled into Props/C04.",
+        "level_note": "Trusted: Lean kernel + propext/Quot.sound; the hand-written model of multi/mod.rs (validated by the correspondence run); rounding is outside the theorems. C04_commute (operators on disjoint qubits commute) is proved through the refinement to the reference circuit.",
         "technique": "Lean 4 proof over a hand-written model + differential correspondence check",
         "design_ref": "DESIGN.md section 5, C04",
     },
